@@ -122,6 +122,8 @@ def run_power(item, tl, mutate=None):
             # (2) within 0.1% for inputs of non-negligible power
             st, model = decide(ctx, z3.And(S.zbool(S.ge(Px, 1e-4)), S.zbool(S.lt(Py, 0.999 * Tg))))
             note("power >= 0.999 target", st, model, f"item {gi}: output power below 99.9% of the target {Tg} for an input of power >= 1e-4")
+            if item.get("power_only"):
+                continue        # larger complex items: only the two power clauses (the collinearity clause is an NRA problem that does not finish)
             # (3) positive real factor: output collinear with the input and same orientation, component-wise
             xs = [p for j in g for p in parts(x[j])]
             ys = [p for j in g for p in parts(y[j])]
@@ -388,7 +390,7 @@ def work(item):
 def all_items():
     items = []
     Ts = tier([0.01, 1.0, 100.0], [0.001, 0.01, 1.0, 100.0, 1000.0])
-    shapes = [(2,), (3,), (1, 3), (2, 2), (2, 3)] + ([(4,), (2, 2, 2)] if TIER == "thorough" else [])
+    shapes = [(2,), (3,), (1, 3), (2, 2), (2, 3), (2, 2, 2)] + ([(4,), (2, 1, 2, 2)] if TIER == "thorough" else [])
     for kind in ("total", "average"):
         for shape in shapes:
             for T in (Ts if shape in ((2,), (2, 2)) else [1.0]):
@@ -398,8 +400,8 @@ def all_items():
                 if shape in ((2,), (2, 2)) and T == 1.0:
                     it2 = dict(it, idempotent=True, stretch=True, config=it["config"] + " +idempotence")
                     items.append(it2)
-        for shape in [(2,), (2, 2)]:
-            it = dict(type="power", kind=kind, shape=shape, complex=True, T=1.0, stretch=False)
+        for shape in [(2,), (2, 2), (2, 1, 2), (2, 2, 1), (1, 1, 2)]:      # 3-D complex items keep two samples per item (NRA capacity)
+            it = dict(type="power", kind=kind, shape=shape, complex=True, T=1.0, stretch=False, power_only=(len(shape) == 3))
             it["config"] = f"{kind} T=1.0 shape={shape} complex"
             items.append(it)
     for kind in ("antenna", "antenna-budget"):
